@@ -455,8 +455,8 @@ func buildRedist(st *Streams, prev []ID, nextIDs []uint64, anchor ID) *Built {
 			sh, _ = shards.Get(id)
 		}
 		a := ID(0)
-		if !isPrev[id] {
-			a = anchor
+		if id != anchor { // every other party configures the anchor, holders of the previous epoch too (they have their own
+			a = anchor // reference and must keep preferring it)
 		}
 		p, err := ad.NewRedistParty(ctxs[id], prev, sh, nextAS, st.Proto(id), a)
 		if err != nil {
